@@ -3,7 +3,7 @@
 # sensitivity/mutants/orig-<short sha>.patch. Each of them must be caught by the check of the property it was found by.
 cd /repo
 for c in $(git log --format=%h --grep='^fix:' ); do
-  case "$c" in 296d65e|62c24df|9a6d9bb|698c11c) continue;; esac  # later fixes touch the same lines: hand-rebased as orig-<sha>-rebased.patch
+  case "$c" in 296d65e|62c24df|9a6d9bb|698c11c|b19e296) continue;; esac  # later fixes touch the same lines: hand-rebased as orig-<sha>-rebased.patch
   git diff $c $c^ > /verif/sensitivity/mutants/orig-$c.patch
   echo "orig-$c: $(git log -1 --format=%s $c)"
 done
